@@ -105,12 +105,21 @@ class Repo(object):
         for n in self.tree(rel).body:
             if isinstance(n, (ast.FunctionDef, ast.AsyncFunctionDef)) and n.name == name:
                 return n
+        # moved to another module of the package (and imported back): follow it when the new home is unambiguous
+        found = [(r, n) for r, t in sorted(self.trees.items()) if r.startswith('supp/') for n in t.body
+                 if isinstance(n, (ast.FunctionDef, ast.AsyncFunctionDef)) and n.name == name]
+        if len(found) == 1:
+            return found[0][1]
         raise AnalysisError('anchor function vanished: %s:%s' % (rel, name))
 
     def klass(self, rel, name):
         for n in ast.walk(self.tree(rel)):
             if isinstance(n, ast.ClassDef) and n.name == name:
                 return n
+        found = [(r, n) for r, t in sorted(self.trees.items()) if r.startswith('supp/') for n in t.body
+                 if isinstance(n, ast.ClassDef) and n.name == name]
+        if len(found) == 1:
+            return found[0][1]
         raise AnalysisError('anchor class vanished: %s:%s' % (rel, name))
 
     def method(self, rel, cls, name, required=True):
